@@ -1200,13 +1200,34 @@ fn gen_case(rng: &mut Rng, idx: usize) -> Vec<String> {
     let mut silent: Vec<bool> = vec![false; n]; // black-holed links get no uplink traffic
     let base_rtt: Vec<u64> = (0..n).map(|_| *rng.pick(&[5u64, 20, 60, 150, 400])).collect();
     let mut needs_rereg: Vec<bool> = up.iter().map(|u| !*u).collect();
-    for _ in 0..steps {
-        now += match rng.below(10) {
-            0 => 0,
-            1..=6 => rng.below(8),
-            7 => 15,
-            8 => rng.below(300),
-            _ => rng.below(1200),
+    // some cases black-hole one link for ~4 s under sustained load so that the stall guard latches,
+    // gates it and the 1-in-100 duplicate probes start flowing
+    let bh_link = if n >= 2 && idx % 3 == 1 { Some(rng.below(n as u64) as usize) } else { None };
+    let bh_start = rng.range(15, 50);
+    let mut bh_until: u64 = 0;
+    for step in 0..steps {
+        if let Some(j) = bh_link {
+            if step == bh_start {
+                silent[j] = true;
+                bh_until = now + 4200;
+            }
+            if bh_until != 0 && now >= bh_until {
+                silent[j] = false;
+                needs_rereg[j] = false;
+                bh_until = 0;
+            }
+        }
+        let in_bh = bh_until != 0 && now < bh_until;
+        now += if in_bh {
+            rng.below(40)
+        } else {
+            match rng.below(10) {
+                0 => 0,
+                1..=6 => rng.below(8),
+                7 => 15,
+                8 => rng.below(300),
+                _ => rng.below(1200),
+            }
         };
         // timers first
         while now.saturating_sub(last_hk) >= 1000 {
@@ -1237,7 +1258,8 @@ fn gen_case(rng: &mut Rng, idx: usize) -> Vec<String> {
             ops.push(format!("flush {now}"));
         }
         let i = rng.below(n as u64) as usize;
-        match rng.below(40) {
+        let pick = if in_bh && rng.chance(3, 4) { rng.below(18) } else { rng.below(40) };
+        match pick {
             0..=17 => {
                 // client data burst
                 for _ in 0..rng.range(1, 12) {
